@@ -41,6 +41,35 @@ def cfg(s, r, p=None, **kw):
     return d
 
 
+def _limit_obs(common):
+    """SEQ put(page A) / release / limit := L / put(page B of another size class): boundary values of L derived from the two sizes"""
+    ait_lop = dict(C10_K=2, C10_NP=2, C10_NN=1, C10_NB=0, C10_NNB=0, C10_Q0=0, C10_Q1=0, C10_PSIZE=1196, C10_FN="PAGE_FUNCTION_AIT", C10_PUT_PSIZE=1564, C10_PUT_FN="PAGE_FUNCTION_LOP")
+    # dropped after measurement: A = LOP (1564), B = LOP + X/26 data (2192), L = 2192 - the variant in which a page with ANOTHER key is actually evicted
+    # (collected by the eviction walk, then delete_page over death_row[]): symex > 430 s at 240 MB, no verdict; with A = AIT the walk ends in `failure'
+    desc = ("SEQ from the empty cache: put(page A), release it (stays cached, unreferenced), memory_limit := L (grid), put(page B of ANOTHER size class, same page number, "
+            "both sub-codes symbolic): the second put may fail (NULL, nothing changes) only when a page with another key would have to be given up, never when it replaces "
+            "the cached page or fits next to it, and never succeeds beyond L; the block returned has exactly the size of the new page (an allocation of another size class is "
+            "never reused; the body copy stays inside both allocations); the cached page is freed exactly when it is replaced (same key) or has to make room; memory_used "
+            "exact and <= L; audit after every operation.  ")
+    enc = ["_vbi_cache_put_page", "page_by_pgno", "cache_page_unref", "delete_page", "cache_network_remove_page", "cache_network_add_page", "cache_page_size"]
+    ass = ["memory_limit is a parameter of the sequence (vbi_cache_new sets 1 GB; with 1 GB the boundary cases need ~700 000 cached pages, which no bounded history "
+           "reaches); boundary values L on the grid, derived from needed (size of B) and memory_used (size of A)"]
+    out = ("other size-class pairs; more than one eviction candidate (put's eviction walks over several pages: symex does not finish, see seq_put_put); whether put finds room "
+           "whenever room could be made (it does not, see the harness comment - not demanded by the property)")
+    mk = lambda base, ls: [dict(base, C10_LIMIT=l) for l in ls]
+    bnd = "3 operations; 1 network; page 0x151; size classes and L on the grid"
+    return [
+        Ob("put_at_memory_limit", func="h_seq_limit", desc=desc + "A = AIT (1196 bytes), B = LOP (1564); L = needed, needed + 1, needed + used - 1: the cached page is in the way",
+           encodes=enc, bounds=bnd, outside=out, assumes=ass, grid=mk(ait_lop, (1564, 1565, 2759)), quick_grid=mk(ait_lop, (1564,)),
+           reach=["end", "replaced", "eviction_needed"], timeout=600, mem_gb=5, **common),
+        Ob("put_below_memory_limit", func="h_seq_limit", desc=desc + "A = AIT, B = LOP; L = needed + used, 1 GB: the cached page goes only when replaced",
+           encodes=enc, bounds=bnd, outside=out, assumes=ass, grid=mk(ait_lop, (2760, 1 << 30)), quick_grid=mk(ait_lop, (2760,)),
+           reach=["end", "replaced", "kept"], timeout=600, mem_gb=5, **common),
+        Ob("put_no_room", func="h_seq_limit", desc=desc + "A = AIT, B = LOP; L = needed - 1: the put fails and changes nothing", tier="thorough",
+           encodes=enc, bounds=bnd, outside=out, assumes=ass, grid=mk(ait_lop, (1563,)), reach=["end", "failed"], timeout=600, mem_gb=5, **common),
+    ]
+
+
 def obligations(tier, seed):
     common = dict(harness="h_c10.c", unwind=5, unwindset=US, vin_size=256, flags=MF, stubs=STUBS)
     inv = dict(assumes=ASSUMES, **common)
@@ -94,6 +123,19 @@ def obligations(tier, seed):
                 "the others kept; pages, page lists, memory untouched; unknown network -> NULL, nothing changes; audit after",
            encodes=["_vbi_cache_get_network", "network_by_id", "cache_network_ref"], bounds="one operation; pre-state <= 3 pages / 2 networks; " + ALPHA,
            grid=[cfg((0, 0, 1), (0, 1, 0))], reach=["end", "found", "unknown"], timeout=400, **inv),
+        Ob("add_network_pages_held", func="h_add_network",
+           desc="INV-STEP _vbi_cache_add_network(ca, NULL) - the channel switch - from every state in which ALL cached pages are held by callers (priority list empty): "
+                "with the cache at its network limit the least recently used network that nobody holds AND that has no held page is recycled, otherwise a new network is "
+                "allocated; a network with a held page is never recycled (its page would become reachable through the new station's network and the counters would be "
+                "zeroed under it); the returned network has no pages, every page and every other network is untouched, lists and memory accounting exact; audit after",
+           encodes=["_vbi_cache_add_network", "add_network", "recycle_network", "delete_all_pages"],
+           bounds="one operation; pre-state 1..2 held pages on 1..2 networks (reference counts 0..2, zombie flags symbolic), one free network slot; " + ALPHA,
+           outside="states with unreferenced pages (delete_all_pages deletes while walking ca->priority: symex follows the walk with a phantom list-head candidate and "
+                   "does not finish, see page_unref); those are exercised natively only",
+           grid=[cfg((0, 1), (1, 1), C10_NN=3, C10_NNB=2), cfg((0,), (1,), C10_NN=3, C10_NNB=2), cfg((0, 0, 2), (1, 1, 1), C10_NN=3, C10_NNB=2)],
+           quick_grid=[cfg((0, 1), (1, 1), C10_NN=3, C10_NNB=2), cfg((0,), (1,), C10_NN=3, C10_NNB=2)],
+           reach=["end", "recycled", "allocated"], timeout=600, mem_gb=5, **inv),
+        *_limit_obs(common),
         Ob("seq_put_put", func="h_seq",
            desc="SEQ-2 from the empty cache: real vbi_cache_new, _vbi_cache_add_network(NULL), then two _vbi_cache_put_page (page numbers grid-concrete, "
                 "sub-codes, decoder page type and content marker symbolic), pages stay held: after every operation the audit holds and the cache equals a "
